@@ -38,7 +38,11 @@ for m in muts:
                 print(f"{m['id']}: pattern occurs {src.count(m['old'])} times - SKIPPED")
                 res.append((m["id"], "bad-pattern"))
                 continue
-            open(p, "w").write(src.replace(m["old"], m["new"]))
+            src = src.replace(m["old"], m["new"])
+            if "also" in m:
+                assert src.count(m["also"]["old2"]) == 1
+                src = src.replace(m["also"]["old2"], m["also"]["new2"])
+            open(p, "w").write(src)
         env = dict(os.environ, VF_REPO=d, VF_SCRATCH_OUT=s)
         props = m["property"] if isinstance(m["property"], list) else [m["property"]]
         verdicts = []
